@@ -1,0 +1,9 @@
+//go:build verif
+
+package icmp_spoofer
+
+// VerifRepeat exposes the package-global RA rate-limit counter (only every
+// 4th router advertisement seen by the process is processed) and lets the
+// harness set it. Compiled only with -tags verif.
+func VerifRepeat() int     { return repeat }
+func VerifSetRepeat(n int) { repeat = n }
